@@ -37,6 +37,8 @@ var extremeQueries = []string{
 	"quantile(2, foo)", "quantile(scalar(nometric), foo)", "topk(scalar(nometric), foo)", "sum(nometric)", "rate(nometric[1m])",
 	"foo / 0", "foo % 0", "topk(scalar(foo), bar)", "clamp(foo, NaN, 1)", "clamp(foo, 5, 1)", "scalar(nometric) + foo", "-nometric",
 	"nometric + foo", "topk(3, nometric)", "quantile(0.5, nometric) + 1", "1e308 * foo * 1e308", "sum(foo * 1e308)", "stddev(foo * 1e300)",
+	"topk(1e18, foo)", "bottomk by (a) (9e18, foo)", "topk(3e9, foo)", "topk(scalar(bar{a=\"x\"}) * 1e17, foo)", "bottomk(2147483648, foo)",
+	"quantile(1e18, foo)", "topk(9.3e18, foo)", "topk(-9e18, foo)",
 	"count(foo) by (nolabel)", "foo @ 0", "foo offset 100h", "foo @ 1e9", "sum_over_time(foo[1ms])", "rate(foo[1ms])", "irate(foo[1ms])",
 }
 
@@ -171,10 +173,10 @@ func oracleFault(seed int64, id int, mode string) CaseResult {
 	case "storerr":
 		kinds, sites = []string{"error"}, errorSites
 	case "lifecycle":
-		kinds, sites = []string{"none", "error", "panic-runtime", "panic-error", "cancel"}, allSites[:11]
+		kinds, sites = []string{"none", "error", "panic-runtime", "panic-error", "cancel", "cancel-slow"}, allSites[:11]
 	}
 	fc, r := genFaultCase(seed, id, kinds, sites)
-	slow := mode == "storerr" && id%4 == 3
+	slow := (mode == "storerr" || mode == "panic") && id%4 == 3
 	if slow {
 		// a slow consumer side: the failing selector runs ahead and fills its exchange buffer
 		fc.Window = Window{Start: 900_000, End: 900_000 + 59*15_000, Step: 15_000} // 60 steps, six batches
@@ -479,6 +481,10 @@ func oracleConc(seed int64, id int) CaseResult {
 	}
 	jobs := make([]job, k)
 	pool := append(append([]string(nil), faultShapes...), "sort(foo)", "absent(nometric)", "label_replace(foo, \"x\", \"$1\", \"a\", \"(.*)\")")
+	if id%5 == 1 {
+		// the first queries an engine ever sees are created concurrently and all take the fallback path
+		pool = pool[len(faultShapes):]
+	}
 	for i := range jobs {
 		jobs[i].q = pick(r, pool)
 		if r.Intn(4) == 0 {
@@ -490,9 +496,11 @@ func oracleConc(seed int64, id int) CaseResult {
 		}
 	}
 	res := CaseResult{Query: fmt.Sprintf("%d concurrent queries, first: %s", k, jobs[0].q), Window: faultWindow, NonTriv: true}
+	// "run alone": on an engine of its own, so that the shared engine's first queries are the concurrent ones
 	solo := make([]Canon, k)
+	soloEng, _ := newEngines(dist, data, NewStore(data))
 	for i, j := range jobs {
-		solo[i], _ = runQuery(eng, NewStore(data), EngineCfg{}, j.q, j.w)
+		solo[i], _ = runQuery(soloEng, NewStore(data), EngineCfg{}, j.q, j.w)
 	}
 	got := make([]Canon, k)
 	var wg sync.WaitGroup
